@@ -17,7 +17,7 @@ CHECKS = {
    "Exploration over histories of update/Write/io::copy/update_reader/update_rayon/update_mmap*/finalize/finalize_xof/count/clone/clone_from on up to three hashers, plus few-but-long operations (64 KiB-12 MiB per call) and single updates beyond 2^32 bytes; sizes are resolved against the running total so block/chunk/power-of-two/SIMD-degree boundaries after odd prefixes are frequent; count(), finalize(), XOF bytes and the one-shot function are compared with the spec model of each instance's bytes after every step.",
    SPEC + DBG, "DESIGN.md §3 C02"),
  "C03": C("model-based property testing of OutputReader histories (position model + spec stream)",
-   "Exploration over root states (inputs at block/chunk edges, merge_subtrees_root_xof) and histories of fill/read/read_exact/set_position/seek/position/clone with positions on both sides of block counter 2^32 and up to 2^64-1; every read must equal spec S[p..p+n], positions and seek results follow a u64 model, failing seeks leave the position unchanged.",
+   "Exploration over root states (inputs at block/chunk edges, merge_subtrees_root_xof) and histories of fill/read/read_exact/read_vectored/take+read_to_end/bytes/io::copy/rewind/set_position/seek/position/clone/clone_from with positions on both sides of block counter 2^32 and up to 2^64-1; every read must equal spec S[p..p+n], positions and seek results follow a u64 model, failing seeks leave the position unchanged.",
    SPEC + DBG + "Seeks beyond 2^64-1 are documented as unspecified and are not generated.", "DESIGN.md §3 C03"),
  "C04": C("differential property testing across configurations (forced SIMD level x build flavour) with a common spec oracle",
    "Exploration: the C01/C02/C03/C09 generators are re-run with the whole crate forced to each SIMD level the CPU supports (hook 1) in the asm, prefer_intrinsics, pure, no-default-features, no_avx512+no_avx2 and portable-only (all no_*) builds (thorough: stock no_* feature builds with hooks off); every output is compared with the spec model, so all configurations agree iff each agrees with it. The check fails as an engine error if an expected (build, level) pair did not execute.",
@@ -32,10 +32,10 @@ CHECKS = {
    "Exploration: C05 tuples and C06 histories are re-run in a forked server process with every buffer (inputs, pointer array, key, cv, block, output, the blake3_hasher object) flush against PROT_NONE pages (end- or start-flush) and canaries on the open side; hand-written assembly is called through trampolines that plant sentinels in all callee-saved registers of System V / Win64 and record rsp and DF, entered at every stack alignment mod 64; byte-granular buffers are also moved off their natural alignment (0..15 bytes). The C sources (incl. C intrinsics kernels) additionally run under clang ASan+UBSan in a libFuzzer target over API histories (engine/cfuzz/c_api_fuzz.c). A fault, a sanitizer report, a damaged canary, a lost sentinel or a wrong result fails the case (and shrinks). Thorough: also the unsafe Rust intrinsics builds.",
    SPEC + "Reads that stay inside the same page as another live buffer are only caught in the placement that isolates that buffer; UB without a symptom under guard pages (assembly) or ASan/UBSan (C sources) is out of reach.", "DESIGN.md §3 C07"),
  "C09": C("property-based testing with a recursive decomposition generator + enumerated helper lattice",
-   "Exploration over random valid tree decompositions (split decisions consumed depth-first, per-leaf update splits, 4 modes), fixed power-of-two groupings, subtrees at chunk indices up to 2^54-1, and the two length helpers on a power-of-two lattice plus random u64 arguments; leaf CVs vs spec subtree CVs, roots vs spec hash/XOF, helpers vs closed forms.",
+   "Exploration over random valid tree decompositions (split decisions consumed depth-first, per-leaf update splits, 4 modes), fixed power-of-two groupings, subtrees at chunk indices up to 2^54-1 and up to the last byte of the counter space, leaves hashed by fresh hashers or by one re-seeded worker (clone_from / reset), and the two length helpers on a power-of-two lattice plus random u64 arguments; leaf CVs vs spec subtree CVs, roots vs spec hash/XOF, helpers vs closed forms.",
    SPEC + DBG, "DESIGN.md §3 C09"),
  "C10": C("model-based property testing: prefix . reset . suffix histories in lockstep with a fresh hasher and the spec model",
-   "Exploration over histories with set_input_offset (chunk-index lattice), updates clamped to the offset's subtree limit, finalize variants, inherent and trait reset, clone/swap; after each reset a freshly constructed twin runs the same suffix and both are compared with each other and with the spec after every op.",
+   "Exploration over histories with set_input_offset (chunk-index lattice), updates clamped to the offset's subtree limit, finalize variants, inherent reset, digest::Reset and all eight resetting trait finalizers (output lengths 0/1/32/100), clone / clone_from / swap; after each reset a freshly constructed twin runs the same suffix and both are compared with each other and with the spec after every op.",
    SPEC + DBG, "DESIGN.md §3 C10"),
  "C11": C("property-based fault injection: scripted Read implementations + file-length lattice, spec oracle",
    "Exploration over reader behaviours (short reads, Interrupted, six kinds of hard errors, early EOF in any order), with prefixes and continued use after errors; files of every length around the 16 KiB mapping threshold and beyond through update_mmap, update_mmap_rayon and update_reader(File); special paths (incl. a sysfs file whose mmap fails and large procfs files), named pipes fed in pieces by a writer thread, directory, missing path; Write adapters.",
@@ -50,7 +50,7 @@ CHECKS = {
    "Exploration over histories of every method of digest 0.11's Update, FixedOutput(+Reset), ExtendableOutput(+Reset), XofReader (read in patterned pieces), Reset, Digest, DynDigest, KeyInit and Mac (incl. verify* with correct/tampered tags) against a twin driven by inherent methods; outputs, count() and the state left behind compared after every call; guts::ChunkState/parent_cv vs spec chunk/parent CVs and root hashes over the 64-bit counter lattice.",
    SPEC + DBG + "guts is_root is only generated with chunk counter 0 (the only root chunk the spec defines).", "DESIGN.md §3 C16"),
  "C17": C("metamorphic property testing (Debug) + memory-snapshot search guided by the spec model (zeroize)",
-   "Debug: one history shape with two independent secret assignments must format byte-identically for Hasher (after every update), OutputReader and guts::ChunkState. Zeroize: the spec model lists the secret strings an object may hold (keys, every tree-node CV, running chunk CV, buffered block, root node CV/block); raw object bytes are snapshotted and after zeroize() no 8-byte window of any secret may remain.",
+   "Debug: one history shape with two independent secret assignments must format byte-identically for Hasher (after every update), OutputReader and guts::ChunkState. Zeroize: the spec model lists the secret strings an object may hold (keys, every tree-node CV, running chunk CV, buffered block, root node CV/block); raw object bytes are snapshotted and after zeroize() no 8-byte window of any secret may remain; in a second sub the object is boxed, zeroized and dropped unread, and the harness's global allocator (engine/spyalloc) shows what the block held when it was freed (a wipe that the optimiser removes as a dead store is only visible there).",
    SPEC + "Reads object memory through raw pointers from zero-initialised storage; only distinctive windows (>=6 distinct bytes) are searched; the search must find at least one resident secret before zeroize, otherwise the case is an engine error, not a pass.", "DESIGN.md §3 C17"),
 }
 
@@ -63,7 +63,7 @@ CHECKS.update({
    "Exploration: the binary compiled from /repo/b3sum/src/main.rs is run on generated files with hostile names and generated combinations of --keyed/--derive-key/--length/--seek/--no-mmap/--num-threads/--raw/--no-names/--tag, and on standard input (pipe, file, file at an advanced offset); stdout must be byte-for-byte the documented line format around spec S[seek..seek+length]; its output is fed back to the real --check. Checkfiles are assembled from entries whose verdict is known by construction (good/stale/missing/directory/malformed, LF/CRLF, plain/tagged): exit status 0 iff all good, OK/FAILED lines in order, diagnostics and the WARNING count.",
    SPEC + "b3sum is built through engine/b3shim with a 6-line stand-in for the `wild` crate (not in the offline cache; on Unix wild::args_os is std::env::args_os) and without clap's wrap_help (help text only). Wording of diagnostics is not asserted.", "DESIGN.md §3 C12"),
  "C13": C("property-based round-trip and certificate checking on b3sum's own printer/parser functions + exhaustive single-character mutants",
-   "Exploration in-process on b3sum's filepath_to_string and parse_check_line (main.rs is include!-d unchanged): 200k paths from a hostile alphabet in both forms and three terminators must round-trip exactly when representable and be rejected otherwise; arbitrary text, near-valid lines and every single-character replace/insert/delete mutant of valid base lines must never panic, and any accepted line is verified as a certificate against the line text (so lines with several conceivable decompositions cannot raise false alarms); constructed members of the always-error classes must be rejected.",
+   "Exploration in-process on b3sum's filepath_to_string and parse_check_line (main.rs is include!-d unchanged): 200k paths from a hostile alphabet in both forms and three terminators must be printed as one physical line in the documented escaped form, round-trip exactly when representable and be rejected otherwise; arbitrary text, near-valid lines and every single-character replace/insert/delete mutant of valid base lines must never panic, and any accepted line is verified as a certificate against the line text (so lines with several conceivable decompositions cannot raise false alarms); constructed members of the always-error classes must be rejected.",
    "Trusts the model of the documented escaping (\\\\, \\n, \\r) in the harness. Windows path normalisation is not executable here.", "DESIGN.md §3 C13"),
  "C18": C("property-based stress testing: generated per-thread programs on disjoint instances in fresh processes, spec oracle per thread",
    "Exploration: 2-32 threads, each with its own generated program over its own Rust and C instances (one-shots, update histories incl. rayon/mmap, XOF readers, C hashers of both builds, construct-update-finalize bursts, long streams through update_reader/mmap/rayon), released together by a barrier in a fresh child process so that CPU-feature detection itself races, repeated 12-40 times; every thread's outputs must equal the spec (= what it yields alone) and the process must exit cleanly; a second sub releases the threads of a fresh process by a spin barrier straight into their first library call (expected values prepared by the spec model beforehand) and repeats that with the C detection cache reset; a failing case counts only if it shows again in amplified re-executions; plus a ThreadSanitizer driver over the C API.",
